@@ -13,7 +13,7 @@ from vf.core import Result, lib
 ID = "C19"
 TITLE = "Fluid facade and PVT-table builder reproduce the underlying correlations"
 LEVEL = "exploration"
-BUDGET = {"quick": 1600, "thorough": 40000}
+BUDGET = {"quick": 1600, "thorough": 400000}
 SHRINK = {"quick": True, "thorough": True}
 RULE = (
     "Three case kinds. 'fluid': a Fluid with generated temperature, API, gas gravity, GOR, salinity (all non-zero and "
@@ -70,6 +70,7 @@ def sutton_case(draw):
     return {
         "kind": "sutton",
         "comp": comp,
+        "comp_other": draw(gens.gas_composition()),
         "bad_dryness": draw(st.sampled_from(["dry", "wet", "Dry Gas", "", "gas", "oil", "wet gas "])),
         "extra": {"name": "Helium", "mw": draw(st.floats(2.0, 60.0)), "tc": draw(st.floats(9.0, 900.0)), "pc": draw(st.floats(30.0, 1500.0))},
     }
@@ -177,6 +178,17 @@ def check_case(case) -> Result:
     if kind == "sutton":
         nh = G.make_nonhydrocarbon_properties(comp["N2"], comp["H2S"], comp["CO2"])
         tpc, ppc = lib("pseudocritical_point_Sutton", G.pseudocritical_point_Sutton, comp["sg"], nh, comp["dryness"])
+        # the array describes the supplied composition and keeps doing so when other compositions are built later
+        # (another gas analysis, a table for another gas): nothing may be shared between the returned arrays
+        other = case["comp_other"]
+        nh_other = G.make_nonhydrocarbon_properties(other["N2"], other["H2S"], other["CO2"])
+        build_pvt_gas({"N2": other["CO2"], "H2S": other["N2"], "CO2": other["H2S"], "Gas Specific Gravity": 0.7, "Reservoir Temperature (deg F)": 200.0}, "dry gas", 40.0)
+        frac = [float(x) for x in nh["fraction"][:3]]
+        if frac != [comp["N2"], comp["H2S"], comp["CO2"]]:
+            res.bad("C19/sutton-point-of-the-supplied-composition", f"contaminant array built for (N2, H2S, CO2) = {(comp['N2'], comp['H2S'], comp['CO2'])} reads {frac} after another composition {(other['N2'], other['H2S'], other['CO2'])} and a table for a third gas were built")
+        t_again, p_again = lib("pseudocritical_point_Sutton(again)", G.pseudocritical_point_Sutton, comp["sg"], nh, comp["dryness"])
+        _close(res, "C19/sutton-point-of-the-supplied-composition", [t_again + 459.67, p_again], [tpc + 459.67, ppc], 1e-13, f"Sutton point of {comp} evaluated again after other compositions were built")
+        del nh_other
         # zero-fraction extra component leaves the point unchanged
         e = case["extra"]
         nh2 = G.make_nonhydrocarbon_properties(comp["N2"], comp["H2S"], comp["CO2"], (e["name"], 0.0, e["mw"], e["tc"], e["pc"]))
